@@ -32,6 +32,8 @@ func init() {
 			{ID: "R01j", Floor: 1 + 1 + 4, Doc: "the on-disk index keeps every record handed to it (sorted, none dropped), so index-backed readers see what sequential readers see (= R11b)", Run: ruleR11b},
 			{ID: "R01k", Floor: 2 + 2 + 4, Doc: "put de-duplication decides at CID/multihash granularity, never by bare digest: no block that was put is silently left out (= R04a)", Run: ruleR04a},
 			{ID: "R01l", Floor: 2, Doc: "index generation decides per section by its own CID (identity and size gates), so an index-backed reader sees every indexable block a sequential reader sees (= R03c)", Run: ruleR03c},
+			{ID: "R01m", Floor: 1, Doc: "an object handed back to a sync.Pool is not kept: when the argument of Pool.Put is read from a struct field, nil is stored to that field on the same path (a reader that keeps using, and re-pooling, a bufio.Reader it no longer owns reads another reader's archive)", Run: ruleR01m},
+			{ID: "R01n", Floor: 4, Doc: "every traversal writer emits a block once across all roots (one visited-set), like the de-duplicating writers (= R15a)", Run: ruleR15a},
 		},
 	})
 }
@@ -527,4 +529,54 @@ func ruleR01f(c *Ctx, r *Report) {
 		}
 	}
 	r.Check(bad == "", key, c.Pos(sp[0].Pos()), "decision -> write -> insert completes before the next decision", bad)
+}
+
+func ruleR01m(c *Ctx, r *Report) {
+	n := 0
+	for _, fn := range c.RepoFuncs() {
+		ord := 0
+		eachInstr(fn, func(in ssa.Instruction) {
+			ci, ok := in.(*ssa.Call)
+			if !ok || !funcIs(calleeFunc(ci.Common()), "sync", "Pool", "Put") {
+				return
+			}
+			args := ci.Call.Args
+			v := stripIface(args[len(args)-1])
+			ld, ok := v.(*ssa.UnOp)
+			if !ok || ld.Op != token.MUL {
+				return // a local: nothing keeps it
+			}
+			fa, ok := ld.X.(*ssa.FieldAddr)
+			if !ok {
+				return
+			}
+			n++
+			ord++
+			key := fmt.Sprintf("pool-release@%s#%d", fnKey(fn), ord)
+			cleared := false
+			after := false
+			for _, x := range ci.Block().Instrs {
+				if x == ssa.Instruction(ci) {
+					after = true
+					continue
+				}
+				if !after {
+					continue
+				}
+				if st, ok := x.(*ssa.Store); ok && isNilConst(st.Val) {
+					if fa2, ok := st.Addr.(*ssa.FieldAddr); ok && fa2.Field == fa.Field && canon(fa2.X) == canon(fa.X) {
+						cleared = true
+					}
+				}
+			}
+			fv := fieldVar(fa.X.Type(), fa.Field)
+			name := "?"
+			if fv != nil {
+				name = fv.Name()
+			}
+			r.Check(cleared, key, c.Pos(ci.Pos()), "field "+name+" is set to nil right after the object goes back to the pool",
+				"the object read from field "+name+" is put back into the pool but the field keeps pointing at it: the next call uses (and re-pools) an object that another reader may already own")
+		})
+	}
+	r.Count("Pool.Put of an object held in a struct field", n)
 }
